@@ -25,6 +25,28 @@ def handleMt (toks : List String) : Option String := do
   | none => some "panic"
   | some out => some ("ok " ++ showList2 toString out)
 
+/-- labels of the members whose probability for tag `t` is maximal -/
+def tiedLabels (labels : List Nat) (tab : List (List Nat)) (t : Nat) : List Nat :=
+  let ps := tab.map fun r => (r[t]?).getD 0
+  let mx := ps.foldl max 0
+  ((labels.zip ps).filter fun lp => lp.2 == mx).map (·.1)
+
+def insertSorted (x : Nat) : List Nat → List Nat
+  | [] => [x]
+  | y :: ys => if x ≤ y then x :: y :: ys else y :: insertSorted x ys
+
+def sortNats (l : List Nat) : List Nat := l.foldr insertSorted []
+
+/-- a cell on which several candidates tie is written as the set of the tied candidates when the
+value returned is one of them: which of them wins is not part of the property -/
+def tieCell (tied : List Nat) (l : Nat) : String :=
+  if tied.length > 1 ∧ l ∈ tied then "t" ++ "|".intercalate ((sortNats tied).map toString) else toString l
+
+def showMc (labels : List Nat) (tab : List (List Nat)) (adj tags out : List Nat) : String :=
+  if adj.all (· == 0) ∧ ¬ tab.isEmpty ∧ out.length = tags.length then
+    ",".intercalate ((tags.zip out).map fun (t, l) => tieCell (tiedLabels labels tab t) l)
+  else showList toString out
+
 def handleMc (toks : List String) : Option String := do
   let tags ← argNats toks "tags"
   let labels ← argNats toks "labels"
@@ -34,12 +56,12 @@ def handleMc (toks : List String) : Option String := do
   let members := (labels.zip (tab.zip adj)).map fun (l, t, a) =>
     (l, fun tags => (scripted t 0 a tags).map fun q => Float.ofNat q / 64)
   match arg toks "pre" with
-  | none => some ("ok " ++ showList toString (multiClassBatch members tags 0))
+  | none => some ("ok " ++ showMc labels tab adj tags (multiClassBatch members tags 0))
   | some _ =>
     let pre ← argNats toks "pre"
     match multiClassInplace members tags pre with
     | none => some "panic"
-    | some out => some ("ok " ++ showList toString out)
+    | some out => some ("ok " ++ showMc labels tab adj tags out)
 
 def showPr (p : Float32) : String := "~" ++ showF64 p.toFloat
 
@@ -64,7 +86,13 @@ def handleKmeans (toks : List String) : Option String := do
     | some _ => (argNats toks "pre").map fun pre => kmeansInplace cents rows pre
   match res with
   | none => some "panic"
-  | some l => some ("ok " ++ showList toString l)
+  | some l =>
+    if l.length = rows.length then
+      some ("ok " ++ ",".intercalate ((rows.zip l).map fun (r, i) =>
+        let d := cents.map fun c => sqDist c r
+        let dm := d.foldl (fun m x => if x < m then x else m) (1.0 / 0.0)
+        tieCell (((List.range d.length).zip d).filter (fun id => id.2 == dm) |>.map (·.1)) i))
+    else some ("ok " ++ showList toString l)
 
 def showT (x : Float) : String := "~" ++ showF64c x
 
